@@ -54,9 +54,10 @@ Variable H : list N -> list N.
 Variable expected : N -> list N.
 Variable npieces : N.
 Variable psize : N -> N.
+Variable repaired : bool.
 
-Notation accept := (accept H expected npieces psize).
-Notation run := (run H expected npieces psize).
+Notation accept := (accept H expected npieces psize repaired).
+Notation run := (run H expected npieces psize repaired).
 Notation hash_failed := (hash_failed).
 
 (* ---------- listed / blocks bookkeeping ---------- *)
@@ -368,7 +369,7 @@ Proof.
         -- unfold mk_blocks in Hx. apply mk_blocks_from_idx in Hx. rewrite Hx. simpl. rewrite N.eqb_refl. apply orb_true_r.
       * intros j Hj. rewrite listed_app. rewrite (I5 j Hj). reflexivity.
     + (* EIns *) destruct (find_block s i b) as [x|]; [|discriminate].
-      destruct (memN p (conns s) && negb (finished x) && negb (memN p (b_queued x)) && negb (has_tr p (b_trans x))); [|discriminate].
+      destruct (_ && _); [|discriminate].
       inversion A; subst s'; clear A. unfold Inv, idx_ok, listed, piece; simpl. rewrite PM. repeat split; auto; try discriminate; try (intros; discriminate).
       intros y Hy. apply in_upd_block in Hy; [|intro; reflexivity]; destruct Hy as [x1 [A1 A2]]. rewrite (geo_idx _ _ A2). apply I4. exact A1.
     + (* ERel *) destruct (find_block s i b) as [x|]; [|discriminate].
